@@ -31,3 +31,62 @@ package goja
 //@   ensures specCanon(result) [canon]
 //@   ensures specNumIs(result, f) [value]
 //@   assigns nothing
+
+//@ func digitVal pure
+
+//@ func parseLargeInt
+//@   props C05
+//@   sweep-callers
+//@   requires n >= 18014398509481984 && base >= 2 && base <= 36
+//@   loop 1 vars n float64, i int
+//@   loop 1 invariant n >= 18014398509481984 && i >= 0 [big]
+
+//@ func parseInt
+//@   props C05
+//@   loop 1 vars cutoff int64, n int64, i int, base int
+//@   loop 1 invariant cutoff > 18014398509481984 && n >= 0 && i >= 0 && base >= 2 && base <= 36 [cutoff-big]
+
+//@ func toLength
+//@   props C05
+//@   ensures 0 <= result && result <= 9007199254740991 [range]
+
+// Script execution (nested calls made by valueOf/toString hooks) restores the VM registers.
+//@ jspreserved vm.sp vm.pc vm.sb vm.args
+
+//@ func (_inc).exec
+//@   props C05
+//@   replay vmexec
+//@   observe sp int = vm.sp
+//@   observe top1 Value = vm.stack[vm.sp-1]
+//@   replay_assume specIsNumber(vm.stack[vm.sp-1])
+//@   requires vm != nil && vm.sp >= 1 && vm.sp <= len(vm.stack) && specCanon(vm.stack[vm.sp-1])
+//@   ensures specCanon(vm.stack[vm.sp-1]) [canon]
+//@   ensures vm.sp == old(vm.sp) && vm.pc == old(vm.pc)+1 [regs]
+
+//@ func (_dec).exec
+//@   props C05
+//@   replay vmexec
+//@   observe sp int = vm.sp
+//@   observe top1 Value = vm.stack[vm.sp-1]
+//@   replay_assume specIsNumber(vm.stack[vm.sp-1])
+//@   requires vm != nil && vm.sp >= 1 && vm.sp <= len(vm.stack) && specCanon(vm.stack[vm.sp-1])
+//@   ensures specCanon(vm.stack[vm.sp-1]) [canon]
+//@   ensures vm.sp == old(vm.sp) && vm.pc == old(vm.pc)+1 [regs]
+
+//@ func (_neg).exec
+//@   props C05
+//@   replay vmexec
+//@   observe sp int = vm.sp
+//@   observe top1 Value = vm.stack[vm.sp-1]
+//@   replay_assume specIsNumber(vm.stack[vm.sp-1])
+//@   requires vm != nil && vm.sp >= 1 && vm.sp <= len(vm.stack) && specCanon(vm.stack[vm.sp-1])
+//@   ensures specCanon(vm.stack[vm.sp-1]) [canon]
+//@   ensures vm.sp == old(vm.sp) && vm.pc == old(vm.pc)+1 [regs]
+
+//@ iface Value.ToFloat
+//@   props C05
+//@   ensures specIsNumber(self) ==> specSameFloat(result, specNumVal(self)) [number]
+
+//@ iface Value.ToNumber
+//@   props C05
+//@   ensures specIsNumber(self) ==> result == self || specIsNaNValue(self) && specIsNaNValue(result) [number-identity]
